@@ -284,7 +284,7 @@ def _rows(repo, col, R="R-C10-rows"):
             continue
         for s in runs:
             tbl = _pick_all(s.base.args[0], kc)
-            sel = _pick_all(s.key, kc)
+            sel = idx.rows_in_view_alias(_pick_all(s.key, kc))
             ok_shape = sel.op == "tuple" and len(sel.args) == 2
             rows, colk = (sel.args if ok_shape else (None, None))
             want_rows = "_nodes_in_view" if kind == "nodes" else "_edges_in_view"
@@ -322,7 +322,7 @@ def _rows(repo, col, R="R-C10-rows"):
     for kc in idx.KCS:
         kind = "nodes" if kc == "node" else "edges"
         want_rows = "_nodes_in_view" if kc == "node" else "_edges_in_view"
-        vk = _pick_all(v, kc)  # the term under "key is a node key" / "key is an edge key"
+        vk = idx.rows_in_view_alias(_pick_all(v, kc))  # the term under "key is a node key" / "key is an edge key"
         sub = T.find(vk, lambda x: x.op == "sub" and x.args[0].op == "attr" and x.args[0].name in ("_nodes_in_view", "_edges_in_view"))
         ok = sub is not None and sub.args[0].name == want_rows and _is_notna_of(sub.args[1], kind, None, kc)
         col.check(ok, R, fi, f"data_set: rows for a {kc} key = in-view rows where the key is set",
